@@ -35,6 +35,7 @@ type World struct {
 	NFiles  int
 	infra   []string // infrastructure problems (type errors, ...)
 	fx      *Facts   // set once the facts are built: lets refClosure follow function values kept in variables
+	soleImpl map[*types.Named]types.Type
 }
 
 func shortPkg(path string) string {
